@@ -1,5 +1,6 @@
 import SC.Properties.C04
 import SC.Proofs.SrcCompare
+import SC.Proofs.SrcCompareB2
 /-!
 # C04 — source-level theorems
 
@@ -26,4 +27,11 @@ theorem source_compare (s t : Bytes) (r0 o0 r1 o1 : Nat) (h : GoSsa.Heap)
 
 /-- non-vacuity / a concrete instance: `"Straße"` against `"STRAẞE"` (ß U+00DF / ẞ U+1E9E, different widths) compare equal -/
 example : S.compare [0x53, 0x74, 0x72, 0x61, 0xC3, 0x9F, 0x65] [0x53, 0x54, 0x52, 0x41, 0xE1, 0xBA, 0x9E, 0x45] = 0 := by decide +kernel
+/-- the same for **`bytcase.Compare`** (`Gen.Src.byt`): its byte loop and its own rune loop — both arguments decoded and folded eagerly,
+    four decode combinations — on the program text (`Proofs/SrcCompareB.lean`, `SrcCompareB2.lean`), for all byte strings < 2^62 bytes -/
+theorem source_compare_bytcase (s t : Bytes) (r0 o0 r1 o1 : Nat) (h : GoSsa.Heap)
+    (hls : s.length < 4611686018427387904) (hlt : t.length < 4611686018427387904) :
+    GoSsa.Ret Gen.Src.byt true Gen.Src.byt_Compare [.str s r0 o0, .str t r1 o1] h [.int (S.compare s t)] h := by
+  have := GoSsa.Byt.Compare s t r0 o0 r1 o1 h hls hlt
+  rwa [compare_refines] at this
 end C04
